@@ -64,6 +64,15 @@ def check(ctx):
     # regions and nodes are mutually exclusive and the region result replaces the node list
     ok = isinstance(v.regions_call.targets[0], ast.Name)
     ctx.check(ok, "R05.6", v.run.where(v.regions_call), "the nodes found under the regions become the node list of the --node machinery", key_of(v.run, f"regions-to-nodes:{norm(v.regions_call)}"))
+    # mechanisms this property rests on (see shared.py): a change there is reported here as well
+    from . import shared as _sh
+
+    _sh.gaf_reader(ctx)
+    _sh.graph_loader(ctx)
+    _sh.contig_paths(ctx)
+    _sh.index_build(ctx)
+    _sh.cli_layer(ctx, "gaftools.cli.view")
+    _sh.cli_layer(ctx, "gaftools.cli.index")
 
 
 # ---------------------------------------------------------------------------------------------
